@@ -17,7 +17,8 @@ spec -> code: MC_C17  - TLC enumerates every tree of <= MaxFiles files over (5 d
                         patterns of a 17-pattern pool; current or deprecated setting name) over one tree
                         holding all 160 pool paths.
 code -> spec: seeded random sessions (random names incl. regex metacharacters, newlines, upper case;
-              random suffix lists derived from the names; 1-2 roots; files added and removed between
+              random suffix lists derived from the names; 1-2 roots, one of them possibly the
+              components/ directory of a generated installed app; files added and removed between
               observations; random lookup spellings) recorded on the real finder and validated in one
               TLC batch by Trace_C17.
 
@@ -32,7 +33,8 @@ Not determined by the property, therefore not demanded (see Finder.tla):
     harness asserts that for every file;
   * lookups that resolve to a directory; symlinks; tuple entries in COMPONENTS.dirs;
   * the `serve` channel for names containing a newline (Django's view itself raises BadHeaderError);
-  * with two roots only canonical lookups are made (an escape attempt raises in the first root).
+  * with two roots only canonical lookups are made (an escape attempt raises in the first root);
+  * files of django_components' own components/ app directory (reached when app_dirs is used) are projected away.
 
 Known deviation, classified by the specification (Finder.tla, "the known deviation"): a suffix string
 is compiled as the regex  "\\" + suffix + "$" : inner dots are wildcards, "$" also matches before a final
@@ -80,9 +82,19 @@ def _set(xs: Iterable[int]) -> str:
 class Sandbox:
     """S/r0 [, S/r1] component roots, S/r0x/a.js look-alike sibling, S/outside.js."""
 
-    def __init__(self, tag: str, nroots: int = 1):
+    def __init__(self, tag: str, nroots: int = 1, app: bool = False):
         self.S = workdir(tag).resolve()
         self.roots = [self.S / f"r{i}" for i in range(nroots)]
+        self.app: Optional[str] = None
+        if app:
+            # the last root is [app]/components of a generated app (reached through COMPONENTS.app_dirs)
+            self.app = "vfapp17_" + self.S.name.replace("-", "_")
+            pkg = self.S / self.app
+            pkg.mkdir()
+            (pkg / "__init__.py").write_text("")
+            (pkg / "apps.py").write_text(
+                f"from django.apps import AppConfig\n\n\nclass Cfg(AppConfig):\n    name = {self.app!r}\n")
+            self.roots[-1] = pkg / "components"
         for r in self.roots:
             r.mkdir()
         (self.S / "r0x").mkdir()
@@ -146,13 +158,31 @@ def _py_pat(p: Dict[str, str]):
 
 
 @contextmanager
-def configured(cfg: Dict[str, Any], roots: List[Path], as_path: bool = False):
+def installed_app(sbx: "Sandbox"):
+    """Install the sandbox's generated app for the duration (override_settings re-populates the registry)."""
+    import sys
+    from django.test.utils import override_settings
+    sys.path.insert(0, str(sbx.S))
+    ov = override_settings(INSTALLED_APPS=("django_components", sbx.app))
+    ov.enable()
+    try:
+        yield
+    finally:
+        ov.disable()
+        sys.path.remove(str(sbx.S))
+        for m in [m for m in sys.modules if m.split(".")[0] == sbx.app]:
+            del sys.modules[m]
+
+
+@contextmanager
+def configured(cfg: Dict[str, Any], roots: List[Path], as_path: bool = False, last_is_app: bool = False):
     """COMPONENTS for one abstract configuration (settings are read lazily by app_settings)."""
     from django.conf import settings
     from django.contrib.staticfiles import finders as sf
     old = settings.COMPONENTS
-    comp: Dict[str, Any] = {"autodiscover": False, "app_dirs": [],
-                            "dirs": [Path(r) if as_path else str(r) for r in roots]}
+    droots = roots[:-1] if last_is_app else roots
+    comp: Dict[str, Any] = {"autodiscover": False, "app_dirs": ["components"] if last_is_app else [],
+                            "dirs": [Path(r) if as_path else str(r) for r in droots]}
     for field, name in (("a", "static_files_allowed"), ("f", "static_files_forbidden"),
                         ("fo", "forbidden_static_files")):
         if cfg[field]["set"]:
@@ -172,6 +202,8 @@ def obs_list(finder, sbx: Sandbox) -> List[Tuple[int, str]]:
     out = []
     locs = {str(r): i for i, r in enumerate(sbx.roots)}
     for path, storage in finder.list([]):
+        if sbx.app and not str(storage.location).startswith(str(sbx.S) + os.sep):
+            continue             # app_dirs also reaches django_components' own components/ directory
         out.append((locs.get(str(storage.location), -1), path))
     return out
 
@@ -298,14 +330,16 @@ def replay_tree_row(chk: Check, row: Dict[str, Any], sbx: Sandbox, serve: bool =
                 chk.violation(case, detail)
 
 
-def model_check_trees(chk: Check, max_files: int, small: List[int], names: Optional[List[int]] = None,
-                      cfgs: Optional[List[int]] = None, serve: bool = True) -> None:
+def model_check_trees(chk: Check, max_files: int, small: List[int], small_dirs: Optional[List[int]] = None,
+                      names: Optional[List[int]] = None, cfgs: Optional[List[int]] = None,
+                      serve: bool = True) -> None:
     w = workdir("c17mc")
     cfg, out = w / "mc.cfg", w / "trees.ndjson"
     cfg.write_text(
         "SPECIFICATION MCSpec\nCONSTANTS\n"
         f"  CfgIdx = {_set(cfgs or range(1, N_CFGS + 1))}\n  NameIdx = {_set(names or range(1, N_NAMES + 1))}\n"
-        f"  SmallIdx = {_set(small)}\n  DirIdx = {_set(range(1, N_DIRS + 1))}\n  MaxFiles = {max_files}\n"
+        f"  SmallIdx = {_set(small)}\n  SmallDirs = {_set(small_dirs or range(1, N_DIRS + 1))}\n"
+        f"  DirIdx = {_set(range(1, N_DIRS + 1))}\n  MaxFiles = {max_files}\n"
         "INVARIANT Theorems\nINVARIANT PathsDistinct\nINVARIANT Export\n")
     rows, distinct, generated = _export("MC_C17", cfg, out)
     chk.add("states", distinct)
@@ -503,7 +537,7 @@ def record_session(rnd: random.Random, tid: int, sbx: Sandbox) -> Dict[str, Any]
            "f": {"set": False, "pats": []} if fo_name else flist,
            "fo": flist if fo_name else {"set": False, "pats": []}}
     events: List[Dict[str, Any]] = []
-    with configured(cfg, sbx.roots, as_path=tid % 2 == 0):
+    with configured(cfg, sbx.roots, as_path=tid % 2 == 0, last_is_app=bool(sbx.app)):
         finder = ComponentsFileSystemFinder()          # one finder for the whole session, as Django keeps it
 
         def observe() -> None:
@@ -540,7 +574,7 @@ def record_session(rnd: random.Random, tid: int, sbx: Sandbox) -> Dict[str, Any]
                     sbx.remove(r, p)
                     events.append({"op": "del", "r": r, "p": p})
                 observe()
-    return {"id": tid, "nroots": nroots, "cfg": cfg, "events": events}
+    return {"id": tid, "nroots": nroots, "app_root": bool(sbx.app), "cfg": cfg, "events": events}
 
 
 def _clauses(s: str) -> List[str]:
@@ -563,8 +597,12 @@ def _rejects(out: str, n: int, what: str) -> List[Tuple[int, int, List[str]]]:
 def validate_sessions(chk: Check, n: int, salt: int = 0) -> None:
     rnd = random.Random(chk.seed * 7919 + 17 + salt)
     w = workdir("c17tr")
-    boxes = {1: Sandbox("c17t1", 1), 2: Sandbox("c17t2", 2)}
-    traces = [record_session(rnd, i + 1, boxes[1 if rnd.random() < 0.7 else 2]) for i in range(n)]
+    boxes = {1: Sandbox("c17t1", 1), 2: Sandbox("c17t2", 2), 3: Sandbox("c17t3", 2, app=True)}
+    with installed_app(boxes[3]):
+        traces = []
+        for i in range(n):
+            x = rnd.random()
+            traces.append(record_session(rnd, i + 1, boxes[1 if x < 0.6 else 2 if x < 0.8 else 3]))
     f = w / "sessions.ndjson"
     tlc.write_ndjson(f, traces)
     cfg = w / "trace.cfg"
@@ -580,7 +618,7 @@ def validate_sessions(chk: Check, n: int, salt: int = 0) -> None:
         t = traces[tno - 1]
         if "bad_case" in clauses:
             raise MachineryError(f"Trace_C17: generator produced a configuration outside the model: {t['cfg']}")
-        case = {"kind": "session", "nroots": t["nroots"], "cfg": t["cfg"],
+        case = {"kind": "session", "nroots": t["nroots"], "app_root": t["app_root"], "cfg": t["cfg"],
                 "files_before": [[e["r"], e["p"], e["op"]] for e in t["events"][:at] if e["op"] in ("add", "del")],
                 "event": t["events"][at - 1]}
         plain = [c for c in clauses if not c.startswith("dev:")]
@@ -601,8 +639,10 @@ def validate_sessions(chk: Check, n: int, salt: int = 0) -> None:
 # ---------------------------------------------------------------- tiers
 def core(chk: Check, tier: str) -> None:
     quick = tier == "quick"
-    small = [1, 2, 8, 9] if quick else [1, 2, 8, 9, 17, 19]
-    model_check_trees(chk, max_files=2 if quick else 3, small=small)
+    if quick:
+        model_check_trees(chk, max_files=2, small=[1, 2, 8, 9])
+    else:
+        model_check_trees(chk, max_files=3, small=[1, 2, 8, 9, 17, 19], small_dirs=[1, 2, 3, 4])
     model_check_configs(chk, max_a=1, max_f=1, dirs=[1, 3] if quick else [1, 2, 3, 4, 5], serve=not quick)
     if not quick:
         model_check_configs(chk, max_a=2, max_f=1, dirs=[1, 3], pats=[1, 2, 3, 4, 5, 9, 10, 13, 14, 16])
@@ -744,7 +784,12 @@ def selftest(tier: str) -> int:
             return cache[k]
         return patch(F, "_is_path_valid", valid)
 
+    def app_dirs_not_searched():
+        orig = fi.get_component_dirs
+        return patch(fi, "get_component_dirs", lambda: orig(include_apps=False))
+
     probes = [
+        ("app-directories-not-searched", app_dirs_not_searched),
         ("forbidden-list-ignored", valid_with(forbid_ignored)),
         ("suffix-regex-not-anchored", valid_with(unanchored)),
         ("case-insensitive-suffix", valid_with(ignorecase)),
@@ -826,12 +871,14 @@ def replay(path: str) -> int:
     elif kind == "config":
         replay_tree_row(chk, {"cid": 0, "cfg": case["cfg"], "files": [case["file"]], "lookups": []}, Sandbox("c17rp"))
     elif kind == "session":
-        sbx = Sandbox("c17rp", case["nroots"])
+        from contextlib import nullcontext
+        sbx = Sandbox("c17rp", case["nroots"], app=case.get("app_root", False))
         evs = []
         for r, p, op in case["files_before"]:
             (sbx.add if op == "add" else sbx.remove)(r, p)
             evs.append({"op": op, "r": r, "p": p})
-        with configured(case["cfg"], sbx.roots):
+        with (installed_app(sbx) if sbx.app else nullcontext()), \
+                configured(case["cfg"], sbx.roots, last_is_app=bool(sbx.app)):
             evs.append(_reobserve(case["event"], ComponentsFileSystemFinder(), sbx))
         w = workdir("c17rp")
         tlc.write_ndjson(w / "s.ndjson", [{"id": 1, "nroots": case["nroots"], "cfg": case["cfg"], "events": evs}])
